@@ -3,7 +3,7 @@
 // This source code is licensed under the MIT license found in the
 // LICENSE file in the root directory of this source tree.
 
-use alloc::vec::Vec;
+use alloc::{string::ToString, vec::Vec};
 
 use crypto::ElementHasher;
 use math::FieldElement;
@@ -140,6 +140,11 @@ impl OodFrame {
         }
 
         // if there is a Lagrange kernel, we treat its associated entries separately above
+        if lagrange_kernel_frame.is_some() && aux_trace_width == 0 {
+            return Err(DeserializationError::InvalidValue(
+                "Lagrange kernel frame provided for a trace without auxiliary columns".to_string(),
+            ));
+        }
         let aux_trace_width = aux_trace_width - (lagrange_kernel_frame.is_some() as usize);
 
         // parse main and auxiliary trace evaluation frames. This does the reverse operation done in
@@ -147,6 +152,11 @@ impl OodFrame {
         let (current_row, next_row) = {
             let mut reader = SliceReader::new(&self.trace_states);
             let frame_size = reader.read_u8()? as usize;
+            if frame_size != 2 {
+                return Err(DeserializationError::InvalidValue(format!(
+                    "out-of-domain frame must consist of 2 rows, but {frame_size} were specified"
+                )));
+            }
             let trace = reader.read_many((main_trace_width + aux_trace_width) * frame_size)?;
 
             if reader.has_more_bytes() {
